@@ -4,7 +4,7 @@ SPEC = {
     "level": "exploration",
     "units": [
         {"name": "ntor", "pkg": NT, "kind": "rapid", "run": "^TestVerifC08Ntor$",
-         "quick": {"checks": 300, "shards": 6, "timeout": 300},
+         "quick": {"checks": 400, "shards": 8, "timeout": 300},
          "thorough": {"checks": 6000, "shards": 16, "timeout": 3000}},
         {"name": "kdf", "pkg": NT, "kind": "rapid", "run": "^TestVerifC08Kdf$",
          "quick": {"checks": 800, "shards": 1, "timeout": 300},
